@@ -355,13 +355,17 @@ class Env:
         self.this_rec = this_rec
         self.objs = objs or {}  # parameter decl -> storage of the object it refers to (read-only)
         self.ret = None
-        self.returned = False
+        self.done = C0  # condition under which the function has already returned
+
+    @property
+    def returned(self):
+        return self.done == C1
 
     def fork(self):
         e = Env(list(self.storage) if self.storage is not None else None, self.vars, self.this_rec, self.objs)
         e.vars = dict(self.vars)
         e.ret = self.ret
-        e.returned = self.returned
+        e.done = self.done
         return e
 
 
@@ -610,8 +614,8 @@ class Interp:
             if o.get("k") == "ref" and o.get("decl") in env.objs and c.get("const"):
                 sub = Env(list(env.objs[o["decl"]]), params, g.rec)
                 self.block(g.body, sub, depth + 1)
-                if sub.ret is None:
-                    raise Unsupported("callee %s returned nothing" % g.name)
+                if sub.ret is None or sub.done != C1:
+                    raise Unsupported("callee %s does not return a value on every path" % g.name)
                 return sub.ret
             if o.get("k") != "this":
                 raise Unsupported("member call on object other than this: %s" % c.get("name"))
@@ -626,8 +630,8 @@ class Interp:
         rt = g.raw.get("rett") or {}
         if rt.get("k") == "void":
             return BV([], False)
-        if sub.ret is None:
-            raise Unsupported("callee %s returned nothing" % g.name)
+        if sub.ret is None or sub.done != C1:
+            raise Unsupported("callee %s does not return a value on every path" % g.name)
         return sub.ret
 
     def float_swap(self, g):
@@ -681,28 +685,47 @@ class Interp:
         return perm
 
     # ---------------------------------------------------------------- statements
+    @staticmethod
+    def _merge_bv(c, a, b):
+        if a is None:
+            return b
+        if b is None:
+            return a
+        w = max(a.w, b.w)
+        a, b = a.resize(w), b.resize(w)
+        return BV([t_ite(c, x, y) for x, y in zip(a.bits, b.bits)], a.signed)
+
     def join(self, env, c, ea, eb):
+        """env := c ? ea : eb.  A branch that returned contributes its return value under its
+        own `done` condition; statements after the join run guarded by the merged condition."""
         if env.storage is not None:
             env.storage = [t_ite(c, x, y) for x, y in zip(ea.storage, eb.storage)]
         for v in set(ea.vars) | set(eb.vars):
             a, b = ea.vars.get(v), eb.vars.get(v)
             if a is None or b is None:
                 continue
-            w = max(a.w, b.w)
-            a, b = a.resize(w), b.resize(w)
-            env.vars[v] = BV([t_ite(c, x, y) for x, y in zip(a.bits, b.bits)], a.signed)
-        if ea.returned != eb.returned:
-            raise Unsupported("return under a symbolic condition on one branch only")
-        if ea.returned:
-            env.returned = True
-            w = max(ea.ret.w, eb.ret.w)
-            a, b = ea.ret.resize(w), eb.ret.resize(w)
-            env.ret = BV([t_ite(c, x, y) for x, y in zip(a.bits, b.bits)], a.signed)
+            env.vars[v] = self._merge_bv(c, a, b)
+        env.done = t_ite(c, ea.done, eb.done)
+        env.ret = self._merge_bv(c, ea.ret, eb.ret)
 
     def block(self, s, env, depth=0):
         if env.returned:
             return
         k = s.get("k")
+        if env.done != C0 and k != "compound":
+            # some paths have returned already: run the statement on the others only
+            d = env.done
+            e2 = env.fork()
+            e2.done, e2.ret = C0, None
+            self.block(s, e2, depth)
+            if env.storage is not None:
+                env.storage = [t_ite(d, x, y) for x, y in zip(env.storage, e2.storage)]
+            for v, b in e2.vars.items():
+                a = env.vars.get(v)
+                env.vars[v] = b if a is None else self._merge_bv(d, a, b)
+            env.ret = self._merge_bv(d, env.ret, e2.ret)
+            env.done = t_or(d, e2.done)
+            return
         if k == "compound":
             for x in s.get("body", []):
                 self.block(x, env, depth)
@@ -736,7 +759,7 @@ class Interp:
         elif k == "return":
             if "e" in s and s["e"] is not None:
                 env.ret = self.ev(s["e"], env, depth)
-            env.returned = True
+            env.done = C1
         elif k == "null":
             pass
         elif k in ("while", "for", "do", "rangefor", "switch", "try"):
